@@ -88,6 +88,7 @@ class Harness:
     file: str = ""
     contract_target: str = ""
     text: str = ""
+    qual: str = ""
 
 
 @dataclass
@@ -154,6 +155,19 @@ def parse_overlay(path):
     return ov
 
 
+def module_path(file_rel):
+    """crate-relative module path of a source file (src/a/b.rs -> a::b, src/a/mod.rs -> a, src/lib.rs -> '')"""
+    rel = file_rel
+    for pre in ("core/src/", "src/"):
+        if rel.startswith(pre):
+            rel = rel[len(pre):]
+            break
+    parts = rel[:-3].split("/")
+    if parts[-1] in ("mod", "lib"):
+        parts = parts[:-1]
+    return "::".join(parts)
+
+
 def harnesses_of(app, ov):
     out = []
     L = app.lines
@@ -182,6 +196,14 @@ def harnesses_of(app, ov):
         while k < len(L) and not (L[k].startswith(" " * indent + "}") and len(L[k].rstrip()) == indent + 1):
             k += 1
         text = "\n".join(x[indent:] if len(x) >= indent else x for x in L[i + 1:k + 1])
+        # enclosing module: nearest preceding `mod <name> {` line with smaller indentation
+        modname = ""
+        for k2 in range(i, -1, -1):
+            mm = re.match(r"(\s*)(pub(\([^)]*\))?\s+)?mod\s+(\w+)\s*\{", L[k2])
+            if mm and len(mm.group(1)) < indent:
+                modname = mm.group(4)
+                break
+        qual = "::".join(x for x in (module_path(app.file), modname, name) if x)
         for req in ("prop", "kind", "tier", "class"):
             if req not in kv:
                 raise OverlayError(f"{app.src}: harness {name} lacks {req}=")
@@ -190,7 +212,7 @@ def harnesses_of(app, ov):
             tier=kv["tier"], cls=kv["class"], expect_fail=(kv.get("expect") == "fail"),
             finding=kv.get("finding", ""), bound=kv.get("bound", ""), timeout=int(kv.get("timeout", "0")),
             cbmc=kv.get("cbmc", ""), unwindset=kv.get("unwindset", ""), panic=kv.get("panic", ""), fns=[x for x in kv.get("fns", "").split(";") if x],
-            file=app.file, contract_target=target, text=text))
+            file=app.file, contract_target=target, text=text, qual=qual))
     return out
 
 
